@@ -24,7 +24,7 @@ NPROC = int(os.environ.get("VERIF_WORKERS", "16"))
 # counters of Sim.stats that are injected faults / schedule perturbations (the rest is plain traffic)
 FAULT_KINDS = {
     "busy", "sock_flip", "multi_socket_iteration", "drop", "dup", "delay", "partition_drop", "crash", "stall", "inject",
-    "slow_resolver", "chunks", "eof", "reset", "dgram_to_dead_socket", "swallowed",
+    "slow_resolver", "chunks", "eof", "reset", "dgram_to_dead_socket", "swallowed", "send_error",
 }
 
 
